@@ -27,7 +27,7 @@ RULE = (
 CLASSES = [
     "rekey", "rekey_collision", "type_only_rekey", "move", "clone", "remove", "remove_then_reinit", "shallow_copy",
     "shallow_copy_follows", "pickle_independent", "deepcopy_independent", "cache_update", "stray_planted",
-    "two_projects", "project_named_by_relative_path", "update_sp_conflict", "move_collision", "clone_collision", "move_uninitialised",
+    "two_projects", "project_named_by_relative_path", "handle_used_after_refused_rekey", "update_sp_conflict", "move_collision", "clone_collision", "move_uninitialised",
     "stray_id_named_file", "rekey_onto_id_named_file", "stale_handle_resynced_by_remove", "gone_id_reopened", "gone_id_unknown", "stale_handle_observed", "lazy_handle_left_alone", "refused_invalid_statepoint", "stale_handle_resynced_by_reset",
     "doc_assigned_live_view_same_job", "doc_assigned_live_view_other_job",
 ]
@@ -217,6 +217,14 @@ CONSTRUCTED = [
         {"op": "new_sp", "p": 0, "sp": {"a": 0}}, {"op": "new_sp", "p": 0, "sp": {"a": 1}}, {"op": "init", "h": 0}, {"op": "init", "h": 1},
         {"op": "sp_set", "h": 0, "k": "a", "v": 1}, {"op": "update_statepoint", "h": 1, "m": {"a": 2}, "overwrite": False},
         {"op": "update_statepoint", "h": 1, "m": {"c": 2}, "overwrite": False}, {"op": "plant_stray", "p": 0, "kind": 1, "n": 1, "file": False}]},
+    # a refused state point change has no effect: the next change through the same handle (or its copy) starts from the job's real state point
+    {"two_projects": False, "ops": [
+        {"op": "new_init", "p": 0, "sp": {"a": 1}}, {"op": "new_init", "p": 0, "sp": {"a": 2}}, {"op": "copy", "h": 0},
+        {"op": "sp_set", "h": 0, "k": "a", "v": 2}, {"op": "touch_sp", "h": 2}, {"op": "sp_set", "h": 2, "k": "b", "v": 3}, {"op": "touch_sp", "h": 0}]},
+    {"two_projects": False, "ops": [
+        {"op": "new_init", "p": 0, "sp": {"a": 1, "n": {"x": 1}}}, {"op": "new_init", "p": 0, "sp": {"a": 2, "n": {"x": 1}}}, {"op": "new_project", "p": 0},
+        {"op": "new_id", "p": 0, "k": 0, "how": "id", "lazy": True}, {"op": "sp_assign", "h": 2, "sp": {"a": 2, "n": {"x": 1}}, "via": "statepoint"},
+        {"op": "init", "h": 2}, {"op": "update_statepoint", "h": 2, "m": {"c": 0}, "overwrite": False}, {"op": "touch_sp", "h": 2}]},
     # clear() / reset() take nested payload along, not only the files at the top of the job directory
     {"two_projects": False, "ops": [
         {"op": "new_init", "p": 0, "sp": {"a": 0}}, {"op": "write", "h": 0, "name": "sub/h.txt", "data": "hello\n"},
